@@ -130,7 +130,11 @@ Fixpoint eval_cmds_with (st : interp) (cmds : list (list word)) (result : value)
       | (st1, Ok ((name_v :: _) as argv)) =>
           let name := as_str name_v in
           match assoc_get name (i_cmds st1) with
-          | None => (st1, err (lit "invalid command name """ ++ name ++ lit """"))
+          | None =>
+              (st1, Err (add_error_info
+                           (add_error_info (molt_err (lit "invalid command name """ ++ name ++ lit """"))
+                                           (lit "    while executing"))
+                           (lit """" ++ list_to_string (map as_str argv) ++ lit """")))
           | Some cmd =>
               match exec st1 cmd argv with
               | (st2, Ok v) => eval_cmds_with st2 rest v
